@@ -257,8 +257,12 @@ func gsxC18FailurePolicy() {
 		rules = gsxMaterialise(env, patterns, files)
 		defer gsxCleanup()
 	}
-	c, err := newRuleguardChecker(gsxC18Info(rules[0]+","+rules[1], m.failOn, m.legacy, "<all>", ""), gsxC18Ctx())
+	info := gsxC18Info(rules[0]+","+rules[1], m.failOn, m.legacy, "<all>", "")
+	c, err := newRuleguardChecker(info, gsxC18Ctx())
 	gsxrt.Reached("constructed")
+	gsxrt.Assert(info.Params["failOn"].Value == m.failOn && info.Params["failOnError"].Value == m.legacy &&
+		info.Params["enable"].Value == "<all>" && info.Params["disable"].Value == "" && info.Params["debug"].Value == "",
+		"write: constructing the checker leaves the registered parameter values as they were")
 	wantErr, wantLoads, undetermined := gsxC18Policy(env, patterns, files, m.all, m.imp, m.dsl)
 	if undetermined {
 		return
